@@ -589,6 +589,32 @@ def _encloses_loop(fnode, record_stmt, store_name) -> bool:
     return False
 
 
+def _n14(body: List[ast.stmt], stats) -> List[ast.stmt]:
+    """N14  `d['a'], d['b'] = (x, y)` with plain names / constants on the right and at least one non-name target (what inlining a helper that
+    returns a pair leaves behind)  ->  `d['a'] = x; d['b'] = y`.  Nothing on the right or in a later target may read a name stored earlier."""
+    out: List[ast.stmt] = []
+    for st in body:
+        ok = (isinstance(st, ast.Assign) and len(st.targets) == 1 and isinstance(st.targets[0], ast.Tuple) and isinstance(st.value, ast.Tuple)
+              and len(st.targets[0].elts) == len(st.value.elts) and all(isinstance(v, (ast.Name, ast.Constant)) for v in st.value.elts)
+              and all(isinstance(t, (ast.Name, ast.Subscript, ast.Attribute)) for t in st.targets[0].elts)
+              and any(not isinstance(t, ast.Name) for t in st.targets[0].elts))
+        if ok:
+            stored = set()
+            for t, v in zip(st.targets[0].elts, st.value.elts):
+                reads = {n.id for x in (t, v) for n in ast.walk(x) if isinstance(n, ast.Name) and isinstance(n.ctx, ast.Load)}
+                if reads & stored:
+                    ok = False
+                if isinstance(t, ast.Name):
+                    stored.add(t.id)
+        if not ok:
+            out.append(st)
+            continue
+        for t, v in zip(st.targets[0].elts, st.value.elts):
+            out.append(ast.copy_location(ast.Assign(targets=[t], value=v, lineno=st.lineno), st))
+        stats['N14'] = stats.get('N14', 0) + 1
+    return out
+
+
 def normalise(tree: ast.AST, ref: dict = None) -> Dict[str, int]:
     stats: Dict[str, int] = {}
     consts = {}
@@ -624,6 +650,7 @@ def normalise(tree: ast.AST, ref: dict = None) -> Dict[str, int]:
             body = [_AttrLiterals(stats).visit(x) if not isinstance(x, (ast.FunctionDef, ast.AsyncFunctionDef, ast.ClassDef)) else x for x in body]
             body = _n5(body, stats)
             body = _n10(body, stats)
+            body = _n14(body, stats)
         body = [_n2(x, stats) for x in body]
         body = _n1(body, nested, stats)
         if in_loop and os.environ.get('VERIF_N3'):
